@@ -8,6 +8,8 @@ pub mod numeric;
 pub mod pn;
 pub mod twins;
 #[cfg(feature = "serde")]
+pub mod nothuman;
+#[cfg(feature = "serde")]
 pub mod serde19;
 #[cfg(feature = "std")]
 pub mod polling;
